@@ -333,3 +333,24 @@ func H_C01_entry_url_repeated() {
 	vAssert((Url(u, rm) != nil) == vOr(want, want2), "C01 "+vSizeRules[rule]+"/string: every occurrence of a repeated query key is measured")
 	vReach("end")
 }
+
+// thorough tier: longer strings and slices
+func vC01Deep(kind int, max int) {
+	rule := vndChoice("rule", 8)
+	x, m, isFloat := vC01Value(kind, max)
+	text, want := vC01Rule(rule, m, isFloat)
+	got := vViolated(func(b *strings.Builder) { vSizeFns[rule](b, text, "O", "F", reflect.ValueOf(x)) })
+	vAssert(got == want, "C01 "+vSizeRules[rule]+"/"+vKindNames[kind]+" (long): violated iff measure outside the set")
+	vReach("end")
+}
+
+func H_C01_deep_string() { vC01Deep(vKString, 10) }
+func H_C01_deep_bytes() {
+	rule := vndChoice("rule", 8)
+	s := vndString("x", 7)
+	vAssume(len(s) > 0)
+	text, want := vC01Rule(rule, vSignedMeas(int64(vRuneCount(s))), false)
+	got := vViolated(func(b *strings.Builder) { vSizeFns[rule](b, text, "O", "F", reflect.ValueOf(s)) })
+	vAssert(got == want, "C01 "+vSizeRules[rule]+"/string of arbitrary bytes (long): violated iff the rune count is outside the set")
+	vReach("end")
+}
